@@ -169,6 +169,10 @@ end
 /-! ## 3. Copy -/
 
 mutual
+/-- `Copy`'s type switch dispatches a node of shape `sh` and type `ty` to a case -/
+def Tables.handles (T : Tables) (sh : Shape) (ty : Nat) : Bool :=
+  (T.decl ty).copyCase && (T.decl ty).shape == sh
+
 /-- `cypher.Copy(v)` with `n` the next free address. A node whose type has no case in the type switch makes the
 real `Copy` panic; the model returns it unchanged and `copyPanics` reports it. -/
 def copy (T : Tables) : Val → Nat → Val × Nat
@@ -176,7 +180,7 @@ def copy (T : Tables) : Val → Nat → Val × Nat
   | .nil, n => (.nil, n)
   | .tnil ty, n => (.tnil ty, n)
   | .node sh a ty keys kids, n =>
-      if (T.decl ty).copyCase then
+      if T.handles sh ty then
         let r := copyK T sh ty 0 kids (n + 1)
         (.node sh n ty keys r.1, r.2)
       else (.node sh a ty keys kids, n)
@@ -197,7 +201,7 @@ mutual
 reaches a `copy()` method that dereferences its receiver without a nil check -/
 def copyPanics (T : Tables) : Val → Bool
   | .tnil ty => !(T.decl ty).copyCase || !(T.decl ty).nilSafe
-  | .node sh _ ty _ kids => !(T.decl ty).copyCase || copyPanicsK T sh ty 0 kids
+  | .node sh _ ty _ kids => !T.handles sh ty || copyPanicsK T sh ty 0 kids
   | _ => false
 def copyPanicsK (T : Tables) (sh : Shape) (ty : Nat) : Nat → List Val → Bool
   | _, [] => false
@@ -240,12 +244,18 @@ structure Lbl where
   name : String
 deriving DecidableEq, Repr, Inhabited
 
+/-- `v != nil` in Go -/
+def Val.isSet : Val → Bool
+  | .nil => false
+  | _ => true
+
+/-- a typed nil pointer: `!= nil` but `isNilNode` -/
+def Val.isTNil : Val → Bool
+  | .tnil _ => true
+  | _ => false
+
 /-- what a cursor constructor can do with one child value -/
 structure Info where
-  /-- the Go value is `!= nil` -/
-  set : Bool
-  /-- typed nil pointer: `!= nil` but `isNilNode` -/
-  isT : Bool
   /-- the value as one branch -/
   asNode : Tree Lbl
   /-- slice: its elements as branches -/
@@ -254,45 +264,48 @@ structure Info where
   items : List (Tree Lbl)
 deriving Inhabited
 
-def Info.none : Info := { set := false, isT := false, asNode := .bad, elems := [], items := [] }
+def Info.none : Info := { asNode := .bad, elems := [], items := [] }
 
-def evalConds (infos : List Info) (cs : List (Nat × Bool)) : Bool :=
-  cs.all (fun c => (infos.getD c.1 Info.none).set == c.2)
+def evalConds (kids : List Val) (cs : List (Nat × Bool)) : Bool :=
+  cs.all (fun c => (kids.getD c.1 Val.nil).isSet == c.2)
 
-/-- branches contributed by one entry -/
-def entryTrees (infos : List Info) (self : List (Tree Lbl)) (e : Entry) : List (Tree Lbl) :=
-  if evalConds infos e.conds then
+/-- branches contributed by one entry; `kids` are the field values, `infos` what the constructor can do with each -/
+def entryTrees (kids : List Val) (infos : List Info) (self : List (Tree Lbl)) (e : Entry) : List (Tree Lbl) :=
+  if evalConds kids e.conds then
     match e.tgt with
     | .field i =>
-      let x := infos.getD i Info.none
-      if e.nn && (!x.set || x.isT) then [] else [x.asNode]
+      let k := kids.getD i Val.nil
+      if e.nn && (!k.isSet || k.isTNil) then [] else [(infos.getD i Info.none).asNode]
     | .elems i => (infos.getD i Info.none).elems
     | .mapItems i => (infos.getD i Info.none).items
     | .selfItems => self
     | .unknown => [.bad]
   else []
 
-def selectTrees (infos : List Info) (self : List (Tree Lbl)) : List Entry → List (Tree Lbl)
+def selectTrees (kids : List Val) (infos : List Info) (self : List (Tree Lbl)) : List Entry → List (Tree Lbl)
   | [] => []
-  | e :: es => entryTrees infos self e ++ selectTrees infos self es
+  | e :: es => entryTrees kids infos self e ++ selectTrees kids infos self es
 
 /-- the cursor for a node of type `ty`: `bad` when the constructor has no case -/
-def mkNode (tab : BranchTab) (l : Lbl) (ty : Nat) (infos : List Info) (self : List (Tree Lbl)) : Tree Lbl :=
+def mkNode (tab : BranchTab) (l : Lbl) (ty : Nat) (kids : List Val) (infos : List Info) (self : List (Tree Lbl)) :
+    Tree Lbl :=
   match tab.getD ty none with
-  | some es => .node l (selectTrees infos self es)
+  | some es => .node l (selectTrees kids infos self es)
   | none => .bad
 
 def scalarInfo (T : Tables) (p : List Nat) (tn : String) : Info :=
-  { set := true, isT := false, elems := [], items := [],
+  { elems := [], items := [],
     asNode := if T.scalarLeaves.contains tn then .node ⟨p, tn⟩ [] else .bad }
 
 /-- the synthesised `&cypher.MapItem{Key, Value}` branches of a map at path `p`: item `j` has path `p ++ [j]`,
-its value `p ++ [j, 1]` -/
-def itemTrees (T : Tables) (tab : BranchTab) (p : List Nat) : Nat → List String → List Info → List (Tree Lbl)
-  | j, _ :: ks, x :: xs =>
-      mkNode tab ⟨p ++ [j], T.typeName T.mapItemTy⟩ T.mapItemTy [scalarInfo T (p ++ [j, 0]) "string", x] []
-        :: itemTrees T tab p (j + 1) ks xs
-  | _, _, _ => []
+its key `p ++ [j, 0]`, its value `p ++ [j, 1]` -/
+def itemTrees (T : Tables) (tab : BranchTab) (p : List Nat) :
+    Nat → List String → List Val → List Info → List (Tree Lbl)
+  | j, k :: ks, v :: vs, x :: xs =>
+      mkNode tab ⟨p ++ [j], T.typeName T.mapItemTy⟩ T.mapItemTy [Val.scalar "string" k, v]
+          [scalarInfo T (p ++ [j, 0]) "string", x] []
+        :: itemTrees T tab p (j + 1) ks vs xs
+  | _, _, _, _ => []
 
 /-- path of kid `j` of a node at `p` -/
 def kidPath (sh : Shape) (p : List Nat) (j : Nat) : List Nat :=
@@ -305,20 +318,17 @@ mutual
 def info (T : Tables) (tab : BranchTab) (p : List Nat) : Val → Info
   | .scalar tn _ => scalarInfo T p tn
   | .nil => Info.none
-  | .tnil _ => { set := true, isT := true, asNode := .bad, elems := [], items := [] }
+  | .tnil _ => Info.none
   | .node sh _ ty keys kids =>
       let infos := infoK T tab sh p 0 kids
       if (T.decl ty).shape == sh then
         match sh with
-        | .obj => { set := true, isT := false, elems := [], items := [],
-                    asNode := mkNode tab ⟨p, T.typeName ty⟩ ty infos [] }
-        | .list => let es := infos.map (·.asNode)
-                   { set := true, isT := false, elems := es, items := [],
-                     asNode := mkNode tab ⟨p, T.typeName ty⟩ ty [] [] }
-        | .map => let its := itemTrees T tab p 0 keys infos
-                  { set := true, isT := false, elems := [], items := its,
-                    asNode := mkNode tab ⟨p, T.typeName ty⟩ ty [] its }
-      else { set := true, isT := false, asNode := .bad, elems := [], items := [] }
+        | .obj => { elems := [], items := [], asNode := mkNode tab ⟨p, T.typeName ty⟩ ty kids infos [] }
+        | .list => { elems := infos.map (·.asNode), items := [],
+                     asNode := mkNode tab ⟨p, T.typeName ty⟩ ty [] [] [] }
+        | .map => let its := itemTrees T tab p 0 keys kids infos
+                  { elems := [], items := its, asNode := mkNode tab ⟨p, T.typeName ty⟩ ty [] [] its }
+      else Info.none
 def infoK (T : Tables) (tab : BranchTab) (sh : Shape) (p : List Nat) : Nat → List Val → List Info
   | _, [] => []
   | j, k :: ks => info T tab (kidPath sh p j) k :: infoK T tab sh p (j + 1) ks
@@ -372,6 +382,45 @@ where go : Nat → List Field → List Entry
       | _ => []) ++ go (i + 1) fs
 
 def schemaTab (T : Tables) : BranchTab := T.types.map (fun d => if d.isNode then some (schemaEntries d) else none)
+
+/-! ### decidable side conditions on branch tables -/
+
+/-- entry `b` yields every branch that entry `a` yields: same target (a map field taken as one branch covers its
+items when maps expand, see `mapsExpanded`), guarded at most by the target's own nil test -/
+def coversEntry (b a : Entry) : Bool :=
+  match a.tgt with
+  | .field i => b.tgt == .field i && b.conds.all (· == (i, true))
+  | .elems i => b.tgt == .elems i && b.conds.all (· == (i, true))
+  | .mapItems i => (b.tgt == .mapItems i || b.tgt == .field i) && b.conds.all (· == (i, true))
+  | .selfItems => b.tgt == .selfItems && b.conds.isEmpty
+  | .unknown => false
+
+/-- every type with a case in `A` has one in `B`, and every entry of `A` is covered by an entry of `B` -/
+def coversTab (A B : BranchTab) : Bool :=
+  (List.range A.length).all (fun ty =>
+    match A.getD ty none with
+    | none => true
+    | some ea =>
+      match B.getD ty none with
+      | none => false
+      | some eb => ea.all (fun a => eb.any (fun b => coversEntry b a)))
+
+/-- in `B` every map type yields its items unconditionally -/
+def mapsExpanded (T : Tables) (B : BranchTab) : Bool :=
+  (List.range T.types.length).all (fun ty =>
+    (T.decl ty).shape != .map ||
+      match B.getD ty none with
+      | some es => es.any (fun e => e.tgt == .selfItems && e.conds.isEmpty)
+      | none => false)
+
+/-- `semantic_subset_structural`'s side condition -/
+def semanticSubset (T : Tables) : Bool :=
+  coversTab T.semantic T.structural && mapsExpanded T T.structural
+
+/-- `structural_visits_all`'s side condition: the structural constructor lists every node-typed field of every
+node type (skipping it only when it is nil) -/
+def branchesComplete (T : Tables) : Bool :=
+  coversTab (schemaTab T) T.structural && mapsExpanded T T.structural
 
 /-! ## 5. walk.Generic -/
 
